@@ -64,6 +64,24 @@ impl<'a> View<'a> {
         self.conns.values().filter(|c| c.addr == addr && c.open_seq <= seq).map(|c| c.conn).max()
     }
 
+    /// Virtual time from which the peer behind `conn` has been reading again without
+    /// interruption (0 if it never stalled, u64::MAX if it is still stalled at the end).
+    pub fn reading_since(&self, conn: ConnId) -> u64 {
+        let mut since = 0u64;
+        for e in &self.out.entries {
+            if let Ev::Fault { kind, detail } = &e.ev {
+                if detail == &conn.to_string() {
+                    if kind == "stall-begin" {
+                        since = u64::MAX;
+                    } else if kind == "stall-end" {
+                        since = e.t_ms;
+                    }
+                }
+            }
+        }
+        since
+    }
+
     pub fn tail(&self, upto_seq: u64, n: usize) -> Vec<String> {
         let end = self.out.entries.iter().position(|e| e.seq > upto_seq).unwrap_or(self.out.entries.len());
         let mut v: Vec<String> = Vec::new();
